@@ -1,29 +1,29 @@
 (* C09 driver body (after `open C09_model` and drvlib.ml).
-   run <fix> <page> <n> <offN,offP,offM> <footN,footP,footM> <conv> <paths> <fids> <fs> <imgs> <ops...>
-     conv : from:to:dt:res;...  (fmt letters N P M, dt f4|f8) or -
+   run <fix> <page> <n> <offN,offP,offM,offA> <footN,footP,footM,footA> <conv> <paths> <fids> <fs> <imgs> <ops...>
+     conv : from:to:dt:res;...  (fmt letters N P M A, dt f4|f8) or -
      paths: N0,N1,P0,M1  (format letter + compressed flag), one per path NAME
      fids : 0,0,1        file identity behind each name (symlink / hard link / other spelling share one)
      fs   : per FILE "-" (absent) or <v>:<dt>:<aff>, comma separated
      imgs : per slot "-" (empty) or A:<v>:<fmt>:<dt>:<aff> (an array image), comma separated
-     ops  : L<s><p><T|F> F<s> U<s> E<s> D<s> S<s><p> B<s>
+     ops  : L<s><p><T|F> F<s> U<s> E<s> D<s> S<s><p> B<s> X<s> (save onto a link to /dev/full)
    -> ok <out>*   out: done | val:<v|G> | saved:<p>:<v|G>:<dt>:<aff> | bytes:<v|G>:<dt>:<aff>
                        | ref:<enum> | crash | dead *)
 let split c s = if s = "" || s = "-" then [] else String.split_on_char c s
-let fmt_of = function 'N' -> Nii | 'P' -> Pair | 'M' -> Mgh | _ -> failwith "fmt"
+let fmt_of = function 'N' -> Nii | 'P' -> Pair | 'M' -> Mgh | 'A' -> Spm | _ -> failwith "fmt"
 let dt_of = function "f4" -> F4 | "f8" -> F8 | s -> failwith ("dtype " ^ s)
 let str_dt = function F4 -> "f4" | F8 -> "f8"
 let digit c = Char.code c - 48
 let str_v = function None -> "G" | Some v -> string_of_int (int_of_nat v)
-let triple s = match split ',' s with [a; b; c] -> (z_of_string a, z_of_string b, z_of_string c) | _ -> failwith "triple"
+let triple s = match split ',' s with [a; b; c; d] -> (z_of_string a, z_of_string b, z_of_string c, z_of_string d) | _ -> failwith "quad"
 let op_of tok =
   let n i = nat_of_int (digit tok.[i]) in
   match tok.[0] with
   | 'L' -> Load (n 1, n 2, tok.[3] = 'T')
   | 'F' -> Fdata (n 1) | 'U' -> Uncache (n 1) | 'E' -> EditHdr (n 1) | 'D' -> SetDtype (n 1)
-  | 'S' -> Save (n 1, n 2) | 'B' -> ToBytes (n 1)
+  | 'S' -> Save (n 1, n 2) | 'B' -> ToBytes (n 1) | 'X' -> SaveFull (n 1)
   | _ -> failwith ("op " ^ tok)
 let str_err = function ENoImage -> "noimage" | ENoFile -> "nofile" | EShortRead -> "short_read"
-  | ENoConversion -> "no_conversion" | ENotSerializable -> "not_serializable"
+  | ENoConversion -> "no_conversion" | ENotSerializable -> "not_serializable" | ENoSpace -> "nospace"
 let str_out = function
   | ODone -> "done"
   | OVal v -> "val:" ^ str_v v
@@ -34,15 +34,14 @@ let str_out = function
   | ODead -> "dead"
 let handle op args = match op, args with
   | "run", fix :: page :: n :: offs :: foots :: conv :: paths :: fids :: fs :: imgs :: ops ->
-    let (on, op_, om) = triple offs and (fn, fp, fm) = triple foots in
-    let sel (a, b, c) = function Nii -> a | Pair -> b | Mgh -> c in
+    let sel (a, b, c, d) = function Nii -> a | Pair -> b | Mgh -> c | Spm -> d in
     let convt = List.map (fun e -> match split ':' e with
         | [a; b; d; r] -> (((fmt_of a.[0], fmt_of b.[0]), dt_of d), dt_of r)
         | _ -> failwith "conv") (split ';' conv) in
     let g = { g_n = z_of_string n; g_page = z_of_string page;
               g_paths = List.map (fun s -> { pi_fmt = fmt_of s.[0]; pi_gz = (s.[1] = '1') }) (split ',' paths);
               g_fid = List.map (fun x -> nat_of_int (int_of_string x)) (split ',' fids);
-              g_off = sel (on, op_, om); g_foot = sel (fn, fp, fm); g_conv = convt;
+              g_off = sel (triple offs); g_foot = sel (triple foots); g_conv = convt;
               g_fix = bool_of_string fix } in
     let fs0 = List.map (fun s -> if s = "-" then None else match String.split_on_char ':' s with
         | [v; d; a] -> Some { k_val = Some (nat_of_int (int_of_string v)); k_dt = dt_of d; k_aff = nat_of_int (int_of_string a) }
